@@ -37,6 +37,22 @@ CHECKS['C19'] = (
     'trusts str indexing; does not judge WHICH category a character gets, only that it is exactly one, context-free',
     '3/C19')
 
+CHECKS['C01'] = (
+    'grammar-based generation (Hypothesis composite) + round-trip / source-slice oracle',
+    'documents are constructed from a grammar of the documented constructs together with their syntax tree; a '
+    'normaliser repairs lexical hazards by construction (counted); oracle: parse succeeds, str(soup)==source, every '
+    'node/argument/text leaf equals the source slice at its recorded position; plus the repository samples and '
+    'documentation literals. ~10k documents quick, ~350k thorough. Exploration.',
+    'trusts the generator/renderer (validated against the parser on >50k documents); finding D6 (verbatim inside items/groups) is excluded by construction and counted',
+    '3/C01')
+CHECKS['C02'] = (
+    'grammar-based generation + canonical-tree equality against the generating syntax tree',
+    'the syntax tree a document was rendered from is the oracle: canonical nested tuples (kind, name, argument kinds/'
+    'order/contents, nesting; comments separate; adjacent text merged) of TexSoup\'s tree must equal those of the '
+    'syntax tree. Profiles enriched for lists and \\newcommand-style definitions. Exploration.',
+    'trusts the generator; reads the node\'s own content list through one adapter (oracles.body_of)',
+    '3/C02')
+
 PENDING = {}
 
 
